@@ -136,6 +136,9 @@ impl<L: Localize> OpeningHours<L> {
         #[cfg(test)]
         crate::tests::stats::notify::generated_schedule();
 
+        #[cfg(oh_verif)]
+        crate::verif_hooks::tick(crate::verif_hooks::Site::ScheduleAt);
+
         if !(DATE_START.date()..DATE_END.date()).contains(&date) {
             return Schedule::default();
         }
@@ -389,6 +392,9 @@ impl<L: Localize> TimeDomainIterator<L> {
             .map(|tr| !tr.range.contains(&start_time))
             .unwrap_or(false)
         {
+            #[cfg(oh_verif)]
+            crate::verif_hooks::tick(crate::verif_hooks::Site::Positioning);
+
             curr_schedule.next();
         }
 
@@ -419,6 +425,13 @@ impl<L: Localize> TimeDomainIterator<L> {
                     .unwrap_or_else(|| self.curr_date.succ_opt().expect("reached invalid date"));
 
                 assert!(next_change_hint > self.curr_date, "infinite loop detected");
+
+                #[cfg(oh_verif)]
+                {
+                    crate::verif_hooks::tick(crate::verif_hooks::Site::DayStep);
+                    crate::verif_hooks::skip(self.curr_date, next_change_hint);
+                }
+
                 self.curr_date = next_change_hint;
 
                 if self.curr_date <= self.end_datetime.date() && self.curr_date < DATE_END.date() {
